@@ -239,6 +239,13 @@ def _worker_run(i_shard):
     return out
 
 
+def _worker_run_lane(lane):
+    return [_worker_run(x) for x in lane]
+
+
+LANES = 64
+
+
 # ------------------------------------------------------------------ findings
 def load_known_findings():
     p = os.path.join(VERIF, 'known_findings.json')
@@ -351,10 +358,14 @@ def run_check(prop_id, tier, workers=16, confirm=True, write_evidence=True):
     tot = Ctx(prop_id, tier, seed)
     done_shards, capped = 0, False
     mpctx = multiprocessing.get_context('fork')
-    # workers are long-lived (forking one per shard costs ~0.2 s each); every worker remembers which shards it has run, so that a
-    # history replay can re-execute exactly the cases a worker had seen before a violation
-    with mpctx.Pool(workers, initializer=_worker_init, initargs=(prop_id, tier, seed)) as pool:
-        it = pool.imap_unordered(_worker_run, list(enumerate(shards)), chunksize=1)
+    # Deterministic schedule: the shards are dealt out to a fixed number of LANES (lane j = shards j, j + L, j + 2L, ...; L does not depend
+    # on the machine); every lane is executed from start to end by ONE freshly forked process, so the sequence of cases a process executes -
+    # and with it every effect of state kept between calls, by the code under test or by the harness - is the same on every run and on every
+    # machine.  Each shard records the shards its lane ran before it, so that a history replay re-executes exactly that sequence.
+    n_lanes = max(1, min(LANES, len(shards)))
+    lanes = [[(i, sh) for i, sh in enumerate(shards) if i % n_lanes == j] for j in range(n_lanes)]
+    with mpctx.Pool(workers, initializer=_worker_init, initargs=(prop_id, tier, seed), maxtasksperchild=1) as pool:
+        it = pool.imap_unordered(_worker_run_lane, lanes, chunksize=1)
         results = []
         while True:
             try:
@@ -362,16 +373,16 @@ def run_check(prop_id, tier, workers=16, confirm=True, write_evidence=True):
                     left = cap - (time.time() - t0)
                     if left <= 0:
                         raise multiprocessing.TimeoutError()
-                    r = it.next(timeout=left)
+                    rs = it.next(timeout=left)
                 else:
-                    r = it.next()
+                    rs = it.next()
             except StopIteration:
                 break
             except multiprocessing.TimeoutError:
                 capped = True
                 pool.terminate()
                 break
-            results.append(r)
+            results.extend(rs)
     results.sort(key=lambda r: r['i'])      # merge in shard order: deterministic
     for r in results:
         done_shards += 1
